@@ -93,6 +93,39 @@ def run(tier, seed):
             if rng.random() < 0.5 and n >= 2:
                 b = b'PH' + b[2:]
             inputs.append(('random', b, None))
+        # ---- I/O-drawer trace buffers inside a PEL (creator M, component 2C00, sub-type 84) whose header describes a WRAPPED buffer: every wrap count,
+        # "next free" offset on an entry boundary / inside an entry / at the ends, buffer completely present or cut -- the walk over the entries must end
+        try:
+            import struct as _st
+            import pelbuild
+            from c15 import enc_entry
+            from io_drawer.drawer_type import DRAWER_TYPES as _DT
+            for dt_ in _DT:
+                for _ in range(40 if thorough else 12):
+                    es_ = [enc_entry((rng.randrange(65536), i_, 0x4654, rng.randrange(2 ** 32), i_, bytes(rng.randrange(256) for _ in range(rng.choice([0, 4, 5, 8, 12, 20]))), b''))
+                           for i_ in range(rng.choice([1, 2, 3, 5, 9]))]
+                    body_ = b''.join(es_)
+                    size_ = 32 + len(body_)
+                    bounds_ = [32 + sum(len(e_) for e_ in es_[:k_]) for k_ in range(len(es_) + 1)]
+                    nf_ = rng.choice([rng.choice(bounds_), rng.choice(bounds_) + rng.choice([1, 2, 4, 6, 10]), 33, size_ - 1, size_, size_ + 4, 0, 31, 32, rng.randrange(32, size_ + 1)])
+                    hdr_ = bytes([2, 32, 1, 0x42]) + b'INFO'.ljust(12, b'\0') + bytes(4) + _st.pack('>III', rng.choice([size_, size_, size_ + 8, size_ - 4]), rng.choice([0, 1, 1, 2, 2 ** 32 - 1]), nf_)
+                    tr_ = hdr_ + body_
+                    if rng.random() < 0.2:
+                        tr_ = tr_[:rng.randrange(32, len(tr_))]
+                    inputs.append(('drawer-trace', pelbuild.pel([pelbuild.UH(), pelbuild.UD(tr_, sub=84, ver=dt_.user_data_version, comp=0x2C00)], creator=b'M', eid=0x0C050000 + len(inputs)), None))
+                # designed: the "next free" offset points INTO the data of the last entry, where the bytes read as an entry that ends behind the declared
+                # buffer size (in bytes that follow the buffer): a walk that starts there and wraps to the front never meets its starting point again
+                for o_, b_, c_ in ((0, 4, 8), (8, 0, 4), (4, 12, 0)):
+                    xhdr_ = _st.pack('>HHHHII', 1, 2, b_ + 4 + c_, 0x4654, 12345, 7)
+                    e1_ = enc_entry((1, 1, 0x4654, 12345, 1, b'abcd', b''))
+                    e2_ = enc_entry((1, 2, 0x4654, 54321, 2, bytes(o_) + xhdr_ + bytes(b_), b''))
+                    size_ = 32 + len(e1_) + len(e2_)
+                    nf_ = 32 + len(e1_) + 16 + o_
+                    hdr_ = bytes([2, 32, 1, 0x42]) + b'INFO'.ljust(12, b'\0') + bytes(4) + _st.pack('>III', size_, 1, nf_)
+                    tr_ = hdr_ + e1_ + e2_ + bytes(c_) + _st.pack('>I', 16 + b_ + 4 + c_ + 4)
+                    inputs.append(('drawer-trace', pelbuild.pel([pelbuild.UH(), pelbuild.UD(tr_, sub=84, ver=dt_.user_data_version, comp=0x2C00)], creator=b'M', eid=0x0C050000 + len(inputs)), None))
+        except ImportError as e:
+            ck.skip('io_drawer.drawer_type unavailable: %r' % e)
         replies = lean_batch([env.tokens()] + ['pelraw %s %s' % (apel.tok_cfg(), tb(b)) for _, b, _ in inputs])[1:]
         slow = 0
         reals = []
@@ -122,6 +155,12 @@ def run(tier, seed):
                 ck.fail('decoder wrote to stdout while decoding', rp | {'stdout': outtxt[:200]}, 'stdout_noise')
             compare(ck, None, b, real, model, None)
         # ---- the same inputs in ONE `python -O` interpreter: the outcome of every input must be what it is with assertions enabled
+        # (inputs on which the decoder already hung are reported above; they are not fed to the batch interpreter, which would sit on the first of them)
+        keep_ = [i_ for i_, r_ in enumerate(reals) if r_[:2] != ('error', 'Hang')]
+        if len(keep_) != len(inputs):
+            ck.count('inputs left out of the python -O batch after a hang', len(inputs) - len(keep_))
+            inputs = [inputs[i_] for i_ in keep_]
+            reals = [reals[i_] for i_ in keep_]
         hexes = [b.hex() for _, b, _ in inputs]
         normal = []
         for (kind, b, bi) in inputs:
